@@ -923,7 +923,12 @@ func (p *context) compileInstrOrValue(b llssa.Builder, iv instrOrValue, asValue 
 			case *ssa.Const:
 				zero = true
 			case *ssa.UnOp:
-				addr = p.compileValue(b, n.X)
+				// Indexing through the address the array value was loaded
+				// from is only the same as indexing the loaded copy while that
+				// memory cannot have changed in between.
+				if arrayLoadStillValid(n, v) {
+					addr = p.compileValue(b, n.X)
+				}
 			}
 			return
 		})
@@ -1045,6 +1050,33 @@ func (p *context) compileInstrOrValue(b llssa.Builder, iv instrOrValue, asValue 
 	}
 	p.bvals[iv] = ret
 	return ret
+}
+
+// arrayLoadStillValid reports whether the array value produced by load is
+// certainly still equal to the memory it was loaded from when use executes:
+// both are in the same block and nothing between them can write memory.
+func arrayLoadStillValid(load *ssa.UnOp, use ssa.Instruction) bool {
+	if load.Op != token.MUL || load.Block() == nil || load.Block() != use.Block() {
+		return false
+	}
+	between := false
+	for _, ins := range load.Block().Instrs {
+		if ins == ssa.Instruction(load) {
+			between = true
+			continue
+		}
+		if ins == use {
+			return between
+		}
+		if !between {
+			continue
+		}
+		switch ins.(type) {
+		case *ssa.Store, *ssa.Call, *ssa.MapUpdate, *ssa.Send, *ssa.Go, *ssa.Defer, *ssa.RunDefers, *ssa.Select, *ssa.Next, *ssa.Panic:
+			return false
+		}
+	}
+	return false
 }
 
 func (p *context) assertNilDerefBase(b llssa.Builder, addr ssa.Value) {
